@@ -397,6 +397,9 @@ func c05Programs(r *findings.Run) (progs []*Prog, names []string) {
 	}
 	// sole-facility programs written as text (package corpus), as far as the reference model reads them
 	for _, tp := range corpus.Tiny() {
+		if strings.ContainsAny(tp.Src, "!^%") {
+			continue // not the cmd-neutral string alphabet of C05 (C08 owns content: a ^ next to a ! is its listed finding)
+		}
 		if p, err := tsparse.Parse(tp.Src); err == nil && len(p.Imports) == 0 {
 			add("tiny "+tp.Name, p)
 		}
